@@ -12,7 +12,13 @@ use std::panic::{catch_unwind, AssertUnwindSafe};
 
 const UNIT: u64 = 315_360; // YEAR / 100
 
+/// sub-second parts given to successive block times: whole seconds stay on the grid (YEAR/100 per unit), the
+/// nanosecond part jumps up and down (rewards are a function of whole seconds: a block time is not a multiple of a second)
+const FRACTIONS: [u64; 7] = [100_000_000, 900_000_000, 0, 500_000_000, 999_999_999, 1, 879_305_533];
+
 pub struct StWorld {
+    /// number of block updates so far (selects the sub-second part), None = keep the sub-second part constant
+    pub jitter: Option<usize>,
     pub app: App,
     pub accts: BTreeMap<String, Addr>,
 }
@@ -43,7 +49,9 @@ impl StWorld {
                 .staking
                 .setup(
                     storage,
-                    StakingInfo { bonded_denom: "TOKEN".to_string(), unbonding_time: unbond * UNIT, apr: Decimal::percent(1000) },
+                    // with varying sub-second parts the period is (unbond - 1) units + 1 s: the first block update at or
+                    // after it is then the one `unbond` units later, whatever the sub-second parts of the two blocks are
+                    StakingInfo { bonded_denom: "TOKEN".to_string(), unbonding_time: if unbond > 0 { (unbond - 1) * UNIT + 1 } else { 0 }, apr: Decimal::percent(1000) },
                 )
                 .unwrap();
             let block = cosmwasm_std::testing::mock_env().block;
@@ -57,7 +65,7 @@ impl StWorld {
                 accts.insert(d.clone(), a);
             }
         });
-        StWorld { app, accts }
+        StWorld { jitter: if unbond > 0 { Some(0) } else { None }, app, accts }
     }
 
     fn addr(&self, n: &str) -> Addr {
@@ -74,6 +82,13 @@ impl StWorld {
         let foreign = op["foreign"].as_bool().unwrap_or(false);
         let f = (op["f"][0].as_u64().unwrap_or(0), op["f"][1].as_u64().unwrap_or(1));
         let waddr = self.addr(op["v"].as_str().unwrap_or(""));
+        let frac = match (a.as_str(), self.jitter.as_mut()) {
+            ("advance", Some(n)) => {
+                *n += 1;
+                Some(FRACTIONS[(*n - 1) % FRACTIONS.len()])
+            }
+            _ => None,
+        };
         let app = &mut self.app;
         catch_unwind(AssertUnwindSafe(move || match a.as_str() {
             "delegate" => app.execute(d, StakingMsg::Delegate { validator: v, amount: coin(amt as u128, denom(foreign)) }.into()).is_ok(),
@@ -90,7 +105,10 @@ impl StWorld {
                 match split {
                     Some(sp) => sp(app, amt),
                     None => app.update_block(|b| {
-                        b.time = b.time.plus_seconds(amt * UNIT);
+                        b.time = match frac {
+                            Some(f) => cosmwasm_std::Timestamp::from_nanos((b.time.seconds() + amt * UNIT) * 1_000_000_000 + f),
+                            None => b.time.plus_seconds(amt * UNIT),
+                        };
                         b.height += 1;
                     }),
                 }
